@@ -34,12 +34,15 @@ const (
 )
 
 type appListener struct {
-	addr string
-	ch   chan net.Conn
-	stop chan struct{}
+	addr  string
+	ch    chan net.Conn
+	stop  chan struct{}
+	ready chan struct{} // closed at the first Accept
+	once  sync.Once
 }
 
 func (l *appListener) Accept() (net.Conn, error) {
+	l.once.Do(func() { close(l.ready) })
 	select {
 	case c := <-l.ch:
 		return &vnet.TCPConn{Conn: c}, nil
@@ -97,8 +100,8 @@ func (w *World) startApp() {
 	in := &appInst{stop: make(chan struct{}), lst: map[int]*appListener{}, dialed: map[int][]*fakemc.Conn{},
 		l1sock: fmt.Sprintf("verif-app-l1-%d.sock", n), l2sock: fmt.Sprintf("verif-app-l2-%d.sock", n)}
 	w.app = in
-	in.lst[0] = &appListener{addr: fmt.Sprintf(":%d", appMainPort), ch: make(chan net.Conn), stop: in.stop}
-	in.lst[1] = &appListener{addr: fmt.Sprintf(":%d", appBatchPort), ch: make(chan net.Conn), stop: in.stop}
+	in.lst[0] = &appListener{addr: fmt.Sprintf(":%d", appMainPort), ch: make(chan net.Conn), stop: in.stop, ready: make(chan struct{})}
+	in.lst[1] = &appListener{addr: fmt.Sprintf(":%d", appBatchPort), ch: make(chan net.Conn), stop: in.stop, ready: make(chan struct{})}
 	in.args = w.Cfg.AppArgs(in.l1sock, in.l2sock)
 	orcas.VerifResetLockSets()
 	vflag.Reset(in.args)
@@ -145,6 +148,20 @@ func (w *World) startApp() {
 		return true
 	}
 	go memproxyapp.VerifRun()
+	// the program is up when its accept loops are waiting for clients
+	ports := []int{0}
+	if w.Cfg.Orca != "l1only" {
+		ports = append(ports, 1)
+	}
+	for _, p := range ports {
+		t := time.NewTimer(time.Hour)
+		select {
+		case <-in.lst[p].ready:
+		case <-t.C:
+			in.Problems = append(in.Problems, fmt.Sprintf("the program never accepted on %s", in.lst[p].addr))
+		}
+		t.Stop()
+	}
 }
 
 func (w *World) stopApp() {
